@@ -109,8 +109,10 @@ def check(repo: Repo, rep: Report) -> None:
             rep.ob("N3-due-guard", _run, short(n), ok and cl.held(s),
                    "an item is moved to the ready list without `duetime <= now` dominating: a timed action would run before its due time")
     # N4
+    ready_names = {u(s.node.target if isinstance(s.node, ast.AnnAssign) else s.node.targets[0]) for s in sites(_run)
+                   if isinstance(s.node, (ast.Assign, ast.AnnAssign)) and isinstance(s.node.value, ast.Call) and call_name(s.node.value) in ("deque", "list")}
     pops = [s for s in sites(_run) if isinstance(s.node, ast.Call) and isinstance(s.node.func, ast.Attribute)
-            and dotted(s.node.func.value) == "ready"]
+            and dotted(s.node.func.value) in ready_names]
     for s in pops:
         a = s.node.func.attr
         rep.ob("N4-fifo", _run, short(s.node), a in ("append", "popleft"),
